@@ -10,6 +10,7 @@ import (
 	"mime/multipart"
 	"net/http"
 	"reflect"
+	"runtime"
 	"sort"
 	"strconv"
 	"strings"
@@ -32,15 +33,31 @@ type c11Case struct {
 	Files []int `json:"file_requests"`  // request indices that carry an upload
 	Fail  []int `json:"failing_ids"`    // an HTTP call containing one of these request ids fails
 	Kind  int   `json:"fail_kind"`      // 0 transport error, 1 status 500, 2 GraphQL errors in answer
+	// Overlap: no scripted order — every call is answered at once and closing a response body takes a moment, so
+	// that calls overlap between reading and decoding their answers; SingleP runs the case on one processor
+	Overlap bool `json:"overlapping_calls,omitempty"`
+	SingleP bool `json:"single_processor,omitempty"`
+}
+
+// slowCloseBody: a response body whose Close yields the processor for a moment
+type slowCloseBody struct {
+	io.Reader
+	d time.Duration
+}
+
+func (b slowCloseBody) Close() error {
+	runtime.Gosched()
+	time.Sleep(b.d)
+	return nil
 }
 
 type c11Obs struct {
-	Result  []int   // -1 for a nil map, else the echoed id
-	Err     bool    // Query returned an error
-	NilRes  bool    // returned slice was nil
-	Calls   [][]int // ids per HTTP call, in arrival order
-	Order   []int   // observed completion order (chunk indices as seen by the reducer), chunks that failed excluded
-	Scripted bool   // the observed order equals the scripted one
+	Result   []int   // -1 for a nil map, else the echoed id
+	Err      bool    // Query returned an error
+	NilRes   bool    // returned slice was nil
+	Calls    [][]int // ids per HTTP call, in arrival order
+	Order    []int   // observed completion order (chunk indices as seen by the reducer), chunks that failed excluded
+	Scripted bool    // the observed order equals the scripted one
 }
 
 // gateRT is the downstream: echoes request identities and releases chunks in a scripted order.
@@ -61,7 +78,7 @@ func (g *gateRT) chunkOf(id int) int {
 }
 
 func (g *gateRT) mayRun(chunk int) bool {
-	if !g.chunked {
+	if !g.chunked || g.c.Overlap {
 		return true
 	}
 	for _, c := range g.c.Pi {
@@ -128,6 +145,9 @@ func (g *gateRT) RoundTrip(r *http.Request) (*http.Response, error) {
 	}
 	g.mu.Unlock()
 	mk := func(status int, b []byte) *http.Response {
+		if g.c.Overlap {
+			return &http.Response{StatusCode: status, Body: slowCloseBody{bytes.NewReader(b), time.Duration(100+50*chunk) * time.Microsecond}, Header: http.Header{}}
+		}
 		return &http.Response{StatusCode: status, Body: io.NopCloser(bytes.NewReader(b)), Header: http.Header{}}
 	}
 	if fail {
@@ -163,6 +183,9 @@ type nopFile struct{ *strings.Reader }
 func (nopFile) Close() error { return nil }
 
 func runC11(c c11Case) c11Obs {
+	if c.SingleP {
+		defer runtime.GOMAXPROCS(runtime.GOMAXPROCS(1))
+	}
 	g := &gateRT{c: c, done: map[int]bool{}, chunked: c.N > c.M}
 	g.cond = sync.NewCond(&g.mu)
 	var order []int
@@ -350,6 +373,14 @@ func driveC11(seed int64, tier string, out string, replay string) {
 					for j := 0; j < 4; j++ {
 						cases = append(cases, c11Case{N: n, M: m, Pi: rng.Perm(k)})
 					}
+				}
+			}
+		}
+		// overlapping calls (answers read, bodies closed and decoded while other calls are in flight)
+		for n := 2; n <= maxN; n += 2 {
+			for m := 1; m <= 3 && m < n; m++ {
+				for rep := 0; rep < 3; rep++ {
+					cases = append(cases, c11Case{N: n, M: m, Pi: []int{0}, Overlap: true, SingleP: rep != 2})
 				}
 			}
 		}
